@@ -108,12 +108,18 @@ structure Facts where
   onCopies : Bool
   /-- `OnStartHandle` / the stream-input start handle run the handlers last to first -/
   startReversed : Bool
+  /-- `InitCallbacks` ALWAYS stores a manager in the context it returns — the `nil` manager when
+      there is neither a call handler nor a global handler — so whatever manager the incoming
+      context carried (handlers and run info of the surrounding unit) is overwritten -/
+  initInstalls : Bool
   deriving DecidableEq, Repr
 
 /-! ## execution units -/
 
 inductive Kind where
-  /-- `InitCallbacks(ctx, info, s...)`: the manager keeps the caller's slice `s` as is -/
+  /-- `InitCallbacks(ctx, info, s...)`: the manager keeps the caller's slice `s` as is.  `ctx` is
+      the parent unit's context if the declaration has a parent (work detached from the run by
+      user code inside a node), else a context without manager. -/
   | init (s : Slice)
   /-- `AppendHandlers(parentCtx, info, designated...)` (initGraphCallbacks / initNodeCallbacks) -/
   | append
@@ -174,6 +180,26 @@ def parentSlice (st : St) (d : UnitDecl) (i : Nat) : Option Slice :=
   | none => if d.kind = .reuse then none else some Slice.nil
   | some p => if p < i then (st.ctxs p).map (·.slice) else none
 
+/-- an `init` unit declared below a parent is created from the parent's context: enabled only
+    once an earlier parent has its context -/
+def initEnabled (st : St) (d : UnitDecl) (i : Nat) : Bool :=
+  match d.parent with
+  | none => true
+  | some p => decide (p < i) && (st.ctxs p).isSome
+
+/-- What `InitCallbacks(parentCtx, info, s...)` leaves in the context.  With `initInstalls`
+    (the source) it is the new manager `(s, info)` in every case; for an empty `s` without global
+    handlers that is the `nil` manager, under which nobody is called.  If instead the function
+    returned the incoming context untouched when there is nothing to install
+    (`initInstalls = false`), the inherited manager — the surrounding unit's handlers AND its
+    run info — would stay in force. -/
+def initCtx (F : Facts) (P : Prog) (st : St) (d : UnitDecl) (s : Slice) : Ctx :=
+  if F.initInstalls || !(s.len == 0 && P.globals.isEmpty) then ⟨s, d.info⟩
+  else
+    match d.parent with
+    | none => ⟨s, d.info⟩
+    | some p => (st.ctxs p).getD ⟨s, d.info⟩
+
 def doMk (F : Facts) (P : Prog) (st : St) (i : Nat) : St :=
   match P.units[i]? with
   | none => st
@@ -181,7 +207,9 @@ def doMk (F : Facts) (P : Prog) (st : St) (i : Nat) : St :=
     if (st.ctxs i).isSome then st else
     match d.kind with
     | .init s =>
-      if s.arr < P.arrays.length then { st with ctxs := upd st.ctxs i (some ⟨s, d.info⟩) } else st
+      if s.arr < P.arrays.length && initEnabled st d i then
+        { st with ctxs := upd st.ctxs i (some (initCtx F P st d s)) }
+      else st
     | .append =>
       match parentSlice st d i with
       | none => st
